@@ -37,6 +37,7 @@ class Cfg:
         self.inline_depth = 12
         self.merge_optional = False          # `X if c else None` -> Maybe(c, X) without path split
         self.max_unroll = 64
+        self.warn_raises = False             # warnings.warn(...) may raise its category (a warning filter set to "error"); otherwise dropped
 
 
 def is_num(v) -> bool:
